@@ -70,7 +70,7 @@ def _systems(quick):
 
 def cases(quick):
     """(system variant, cell pair) work items, plus (-1, 0): the bond-graph enumeration for find_molecules."""
-    return [(-1, 0)] + [(si, ci) for si in range(len(_systems(quick))) for ci in range(len(_menu(quick)))]
+    return [(-1, 0)] + hist_cases(quick) + [(si, ci) for si in range(len(_systems(quick))) for ci in range(len(_menu(quick)))]
 
 
 def _cellclass(cell):
@@ -92,27 +92,36 @@ def _topology(sysv):
     return top
 
 
+_BUILD = {}
+
+
 def _build(sysv, cells, quick, seed):
+    """Fresh trajectory (own Topology, own arrays) of all scattered copies; the arrays are computed once per item."""
     import mdtraj as md
-    sc0 = idn.scatters(sysv, full=not quick)
-    P = sysv.get("placements") or [None]
-    sc = np.tile(sc0, (len(P), 1, 1))
-    pl = np.repeat(np.arange(len(P)), len(sc0))
-    F = len(sc)
-    sel = np.arange(F) % 2
-    wmin = min(float(np.min(grids.cell_widths(c["vectors"]))) for c in cells)
-    L = BOND_FRAC * wmin
-    xyz = np.zeros((F, sysv["n"], 3))
-    for k, c in enumerate(cells):
-        V = c["vectors"]
-        for p, place in enumerate(P):
-            idx = np.where((sel == k) & (pl == p))[0]
-            xyz[idx] = idn.base_positions(sysv, V, L, seed, place)[None] + sc[idx] @ V
-    lengths = np.array([cells[k]["lengths"] for k in sel])
-    angles = np.array([cells[k]["angles"] for k in sel])
-    t = md.Trajectory(xyz.astype(np.float32), _topology(sysv), time=np.arange(F) * 0.5 + 3.0,
-                      unitcell_lengths=lengths, unitcell_angles=angles)
-    sc = np.concatenate([sc.reshape(F, -1), pl[:, None]], axis=1).reshape(F, -1)    # scatter row + placement id
+    key = (sysv["name"], cells[0]["name"], cells[1]["name"], quick, seed)
+    if key not in _BUILD:
+        _BUILD.clear()
+        sc0 = idn.scatters(sysv, full=not quick)
+        P = sysv.get("placements") or [None]
+        sc = np.tile(sc0, (len(P), 1, 1))
+        pl = np.repeat(np.arange(len(P)), len(sc0))
+        F = len(sc)
+        sel = np.arange(F) % 2
+        wmin = min(float(np.min(grids.cell_widths(c["vectors"]))) for c in cells)
+        L = BOND_FRAC * wmin
+        xyz = np.zeros((F, sysv["n"], 3))
+        for k, c in enumerate(cells):
+            V = c["vectors"]
+            for p, place in enumerate(P):
+                idx = np.where((sel == k) & (pl == p))[0]
+                xyz[idx] = idn.base_positions(sysv, V, L, seed, place)[None] + sc[idx] @ V
+        lengths = np.array([cells[k]["lengths"] for k in sel])
+        angles = np.array([cells[k]["angles"] for k in sel])
+        sc = np.concatenate([sc.reshape(F, -1), pl[:, None]], axis=1).reshape(F, -1)    # scatter row + placement id
+        _BUILD[key] = (xyz.astype(np.float32), lengths, angles, sc, sel, wmin)
+    xyz32, lengths, angles, sc, sel, wmin = _BUILD[key]
+    t = md.Trajectory(xyz32.copy(), _topology(sysv), time=np.arange(len(sc)) * 0.5 + 3.0,
+                      unitcell_lengths=lengths.copy(), unitcell_angles=angles.copy())
     return t, sc, sel, wmin
 
 
@@ -153,7 +162,7 @@ def run_topologies(quick):
 def _empty_stats():
     return dict(evals=0, nontrivial=0, err=0.0, guess_raised=0, md_inconsistent=0, excluded_ambiguous=0,
                 excluded_illcond=0, anchor_not_rigid_recorded=0, frames=0, sample=None, api_runs=0, tuples_checked=0,
-                topologies=0)
+                topologies=0, histories=0, histories_pruned=0)
 
 
 def _min_image_rows(disp, V, sel, Rs):
@@ -205,11 +214,218 @@ def _full(best_u, n):
     return M
 
 
+
+# ------------------------------------------------------------------------------------------------------------------
+# History layer: ONE Topology object edited in place between re-imaging calls (stale per-topology state).
+
+HIST_PAIRS = (("cubic3", "ortho234"), ("mono110", "mono_a75"), ("hex60", "tric_75_100_115"))
+
+
+def hist_cases(quick):
+    """(-2, (system, (cell index, cell index), first op, depth)): quick 3 cell pairs to depth 3; thorough every menu
+    pair (i, i+1) to depth 3 and the 3 named pairs to depth 4."""
+    menu = _menu(quick)
+    names = [c["name"] for c in menu]
+    named = [(names.index(a), names.index(b)) for a, b in HIST_PAIRS if a in names and b in names]
+    items = [(pr, 3 if quick else 4) for pr in named]
+    if not quick:
+        items += [((i, (i + 1) % len(menu)), 3) for i in range(len(menu))]
+    return [(-2, (hname, pr, first, depth)) for hname in idn.hist_systems() for pr, depth in items for first in idn.HIST_OPS]
+
+
+def _hist_topology(m):
+    import mdtraj as md
+    top = md.Topology()
+    ch = top.add_chain()
+    residues = {}
+    atoms = []
+    for i, r in enumerate(m["res"]):
+        if r not in residues:
+            residues[r] = top.add_residue("R%d" % r, ch)
+        atoms.append(top.add_atom("X%d" % i, md.element.carbon, residues[r]))
+    for a, b in m["bonds"]:
+        top.add_bond(atoms[a], atoms[b])
+    return top
+
+
+def _hist_apply(top, m, act):
+    import mdtraj as md
+    if act[0] == "insert":
+        res = [r for r in top.residues if r.name == "R%d" % act[2]][0]
+        top.insert_atom("MW", md.element.virtual, res, index=act[1])
+    elif act[0] == "delete":
+        top.delete_atom_by_index(act[1])
+    elif act[0] == "bond":
+        top.add_bond(top.atom(act[1]), top.atom(act[2]))
+
+
+def _hist_image(t, m, op):
+    if op == "W":
+        return t.make_molecules_whole(inplace=True)
+    comp = [c for c in idn.components(len(m["res"]), m["bonds"]) if m["anchor"] in c][0]
+    return t.image_molecules(inplace=True, make_whole=True, anchor_molecules=[set(t.topology.atom(i) for i in sorted(comp))])
+
+
+def _isolated(fn, arg):
+    """Run fn(arg) in a forked child; -> (result, None) or (None, 'signal N' / 'exit N') if the child died.
+    Stale index pairs handed to the C loop can corrupt the heap; the pool worker must survive that."""
+    import os
+    import pickle
+    r, w = os.pipe()
+    pid = os.fork()
+    if pid == 0:
+        code = 0
+        try:
+            os.close(r)
+            with os.fdopen(w, "wb") as fh:
+                pickle.dump(fn(arg), fh)
+        except BaseException:  # noqa: BLE001
+            import traceback
+            traceback.print_exc()
+            code = 17
+        os._exit(code)
+    os.close(w)
+    with os.fdopen(r, "rb") as fh:
+        data = fh.read()
+    _pid, status = os.waitpid(pid, 0)
+    if os.WIFSIGNALED(status):
+        return None, "signal %d" % os.WTERMSIG(status)
+    if os.WEXITSTATUS(status) != 0 or not data:
+        return None, "exit %d" % os.WEXITSTATUS(status)
+    return pickle.loads(data), None
+
+
+def run_history_item(arg):
+    """All op sequences starting with `first` for one system and cell pair, in a forked child (per sequence if the
+    child dies) so that memory corruption by the code under test becomes a violation, not a hang."""
+    if len(arg) > 4:
+        return _run_history_item(arg)
+    res, died = _isolated(_run_history_item, arg)
+    if res is not None:
+        return res
+    (hname, pr, first, depth), quick, seed = arg[1], arg[2], arg[3]
+    recs, st = [], _empty_stats()
+    for seq in [q for q in idn.hist_sequences(depth) if q[0] == first]:
+        res, died = _isolated(_run_history_item, tuple(arg[:4]) + (list(seq),))
+        if res is None:
+            edits = [o for o in seq if o not in ("W", "I")]
+            recs.append(("history|process-died|%s|last-edit=%s" % (seq[-1], edits[-1] if edits else "none"),
+                         "%s cells %s history=%s: child process ended with %s" % (hname, pr, "-".join(seq), died),
+                         dict(si=-2, ci=0, quick=quick, seed=seed, api="history", hname=hname, pair=list(pr), seq=list(seq))))
+            st["evals"] += 1
+            continue
+        recs += res[0]
+        for k, v in res[1].items():
+            if isinstance(v, (int, float)) and k != "err":
+                st[k] = st.get(k, 0) + v
+        st["err"] = max(st["err"], res[1]["err"])
+        st["sample"] = res[1]["sample"]
+    return recs, st
+
+
+def _run_history_item(arg):
+    (hname, pr, first, depth), quick, seed = arg[1], arg[2], arg[3]
+    only = arg[4] if len(arg) > 4 else None
+    import mdtraj as md
+    menu = _menu(quick)
+    cells = [menu[pr[0]], menu[pr[1]]]
+    recs, st = [], _empty_stats()
+    wmin = min(float(np.min(grids.cell_widths(c["vectors"]))) for c in cells)
+    L = BOND_FRAC * wmin
+    seqs = [q for q in idn.hist_sequences(depth) if q[0] == first]
+    if only:
+        seqs = [tuple(only)]
+    for seq in seqs:
+        m = idn.hist_clone(idn.hist_systems()[hname])
+        top = _hist_topology(m)
+        done = []
+        pruned = False
+        for op in seq:
+            if op not in ("W", "I"):
+                act = idn.hist_edit(m, op)
+                if act is None:
+                    pruned = True
+                    break
+                _hist_apply(top, m, act)
+                done.append(op)
+                continue
+            n = len(m["res"])
+            assert top.n_atoms == n and top.n_bonds == len(m["bonds"])
+            sc = idn.hist_scatters(m)
+            F = len(sc)
+            sel = np.arange(F) % 2
+            xyz = np.zeros((F, n, 3))
+            for k, c in enumerate(cells):
+                idx = np.where(sel == k)[0]
+                xyz[idx] = idn.hist_positions(m, c["vectors"], L, seed)[None] + sc[idx] @ c["vectors"]
+            xyz = xyz.astype(np.float32)
+            lengths = np.array([cells[k]["lengths"] for k in sel])
+            angles = np.array([cells[k]["angles"] for k in sel])
+            t = md.Trajectory(xyz.copy(), top, unitcell_lengths=lengths, unitcell_angles=angles)       # the SAME Topology
+            assert t.topology is top
+            t2 = md.Trajectory(xyz.copy(), _hist_topology(m), unitcell_lengths=lengths, unitcell_angles=angles)
+            edits = [o for o in done if o not in ("W", "I")]
+            ctxs = "%s|%s|last-edit=%s" % (op, "re-imaging" if any(o in ("W", "I") for o in done) else "first-imaging",
+                                          edits[-1] if edits else "none")
+            where = "%s cells=%s/%s history=%s step %d" % (hname, cells[0]["name"], cells[1]["name"], "-".join(seq), len(done))
+            rp = dict(si=-2, ci=0, quick=quick, seed=seed, api="history", hname=hname, pair=list(pr), seq=list(seq))
+            try:
+                _hist_image(t, m, op)
+                _hist_image(t2, m, op)
+            except Exception as e:  # noqa: BLE001
+                recs.append(("history|raised|" + ctxs, "%s: %s: %s" % (where, type(e).__name__, e), rp))
+                break
+            st["evals"] += F
+            st["api_runs"] += 1
+            x0, x1 = xyz.astype(np.float64), t.xyz.astype(np.float64)
+            Vst = np.asarray(t.unitcell_vectors, np.float64)
+            delta = x1 - x0
+            if op == "I":
+                delta = delta - delta[:, :1]
+            S = np.maximum(np.abs(x0).max((1, 2)), np.abs(x1).max((1, 2))) + np.abs(Vst).sum((1, 2))
+            tol = C_TOL * grids.EPS32 * S
+            coef = np.einsum("fak,fkl->fal", delta, np.linalg.inv(Vst))
+            kk = np.round(coef)
+            resid = np.linalg.norm(delta - np.einsum("fak,fkl->fal", kk, Vst), axis=-1).max(1)
+            st["err"] = max(st["err"], float((resid / tol).max()))
+            if (resid > tol).any():
+                f = int(np.argmax(resid > tol))
+                recs.append(("history|not-lattice-vector|" + ctxs, "%s frame %d coefficients %s" % (
+                    where, f, np.round(coef[f], 3).tolist()), rp))
+            if m["bonds"]:
+                bi = np.array([b[0] for b in m["bonds"]])
+                bj = np.array([b[1] for b in m["bonds"]])
+                V2 = np.array([Vst[0], Vst[1]])
+                Rs = [idn.needed_R(V2[k], cells[k]["name"]) for k in (0, 1)]
+                d0, _b = _min_image_rows(x0[:, bj] - x0[:, bi], V2, sel, Rs)
+                plain = np.linalg.norm(x1[:, bj] - x1[:, bi], axis=-1)
+                bad = np.abs(plain - d0) > 4 * tol[:, None]
+                st["err"] = max(st["err"], float((np.where(bad, 0, np.abs(plain - d0)) / (4 * tol[:, None])).max()))
+                if bad.any():
+                    f, b = np.argwhere(bad)[0]
+                    recs.append(("history|bonded-pair-not-at-minimum-image|" + ctxs, "%s: bond %s |r_j-r_i| = %.4f, minimum-image "
+                                 "distance %.4f; %d of %d frames, first %d images=%s" % (
+                                     where, m["bonds"][b], plain[f, b], d0[f, b], int(bad.any(1).sum()), F, f, sc[f].tolist()), rp))
+            if not _same(t.xyz, t2.xyz):
+                f = int(np.argmax(np.any(t.xyz != t2.xyz, axis=(1, 2))))
+                recs.append(("history|differs-from-freshly-built-topology|" + ctxs, "%s: frame %d edited-in-place topology gives %s, "
+                             "the same topology built from scratch gives %s" % (where, f, t.xyz[f].tolist(), t2.xyz[f].tolist()), rp))
+            if np.any(kk != 0):
+                st["nontrivial"] += 1 if len(done) else 0
+            done.append(op)
+        st["histories"] = st.get("histories", 0) + (0 if pruned else 1)
+        st["histories_pruned"] = st.get("histories_pruned", 0) + (1 if pruned else 0)
+    st["sample"] = dict(system="history:" + hname, api="-".join(seqs[-1]) if seqs else "", cells=[c["name"] for c in cells])
+    return recs, st
+
+
 def run_item(arg):
     """Worker for one (system variant, cell pair): returns (records, stats)."""
     si, ci, quick, seed = arg[:4]
     only = arg[4] if len(arg) > 4 else None
     import mdtraj as md
+    if si == -2:
+        return run_history_item(arg)
     if si < 0:
         return run_topologies(quick)
     sysv = _systems(quick)[si]
@@ -234,6 +450,12 @@ def run_item(arg):
     M0 = _full(B0, n)
     Dfull0 = np.linalg.norm(M0, axis=-1)
     tri, quad = _tuples(n)
+    if sysv.get("light"):           # molecules sit half a cell apart: only intramolecular tuples have a unique image
+        molid = np.full(n, -1)
+        for mi, m in enumerate(sysv["mols"]):
+            molid[list(m)] = mi
+        tri = tri[(molid[tri] == molid[tri][:, :1]).all(1)] if len(tri) else tri
+        quad = quad[(molid[quad] == molid[quad][:, :1]).all(1)] if len(quad) else quad
     bonds_sorted = sorted([tuple(sorted(b)) for b in sysv["bonds"]], key=lambda b: b[0])     # stable, like the driver
     order_class = "merge-order" if idn.merge_order(bonds_sorted) else "tree-order"
     pair_index = {(int(a), int(b)): k for k, (a, b) in enumerate(zip(*iu))}
@@ -457,7 +679,7 @@ def run(ctx):
     quick = ctx.quick
     cs = cases(quick)
     systems = _systems(quick)
-    cost = lambda c: -(10 ** 6 if c[0] < 0 else 27 ** systems[c[0]]["n"] if systems[c[0]]["small"] and not quick
+    cost = lambda c: -(10 ** 6 if c[0] == -1 else 10 ** 5 if c[0] == -2 else 27 ** systems[c[0]]["n"] if systems[c[0]]["small"] and not quick
                        else systems[c[0]]["n"])
     order = sorted(range(len(cs)), key=lambda i: cost(cs[i]))
     idn.measure_radii(ctx, _menu(quick), _stored_vectors)      # search radius each cell needs, before forking
@@ -466,7 +688,8 @@ def run(ctx):
     for i, r in zip(order, res_o):
         res[i] = r
     tot = dict(evals=0, nontrivial=0, guess_raised=0, md_inconsistent=0, excluded_ambiguous=0, excluded_illcond=0,
-               anchor_not_rigid_recorded=0, frames=0, api_runs=0, tuples_checked=0, topologies=0)
+               anchor_not_rigid_recorded=0, frames=0, api_runs=0, tuples_checked=0, topologies=0, histories=0,
+               histories_pruned=0)
     err = 0.0
     samples = []
     keys = set()
@@ -497,6 +720,8 @@ def run(ctx):
         "trajectory_frames": tot["frames"],
         "api_calls_judged": tot["api_runs"],
         "bond_graphs_enumerated_for_find_molecules": tot["topologies"],
+        "edit_histories_executed": tot["histories"],
+        "edit_histories_pruned_edit_not_applicable": tot["histories_pruned"],
         "angle_dihedral_tuples_checked": tot["tuples_checked"],
         "tuples_excluded_image_not_unique": tot["excluded_ambiguous"],
         "dihedrals_excluded_ill_conditioned": tot["excluded_illcond"],
@@ -515,6 +740,18 @@ def run(ctx):
 
 
 def replay(ctx, rep):
+    if rep["si"] == -2:
+        arg = (-2, (rep["hname"], tuple(rep["pair"]), rep["seq"][0], len(rep["seq"])), rep["quick"], rep["seed"], rep["seq"])
+        ra, da = _isolated(_run_history_item, arg)
+        rb, db = _isolated(_run_history_item, arg)
+        if ra is None or rb is None:
+            print("replay: child process died:", da, db)
+            return False
+        a, b = ra[0], rb[0]
+        assert sorted(r[:2] for r in a) == sorted(r[:2] for r in b), "replay is not deterministic"
+        for r in a[:5]:
+            print("replay:", r[0], "::", r[1][:500])
+        return not a
     if rep["si"] < 0:
         bad = [_check_find_molecules(rep["n"], [tuple(b) for b in rep["bonds"]]) for _ in (0, 1)]
         assert bad[0] == bad[1], "replay is not deterministic"
